@@ -51,6 +51,8 @@ class SimProtoExporter:
         self.pkg = pkg
         self.inp = None  # Initialize our resultant `vsp.SimInput`
         self.analysis_count = 0
+        # The analysis names chosen by the user, at any level of nesting
+        self.user_names = set(user_analysis_names(sim.attrs))
 
     def export(self) -> vsp.SimInput:
         """Primary export method. Converts `sim.tb` and its dependencies to a `Package`,
@@ -106,9 +108,13 @@ class SimProtoExporter:
 
     def next_analysis_name(self) -> str:
         """Create a name for the next user-unnamed Analysis.
-        Format: `Analysis{num}`, where `num` increases across all analyses."""
+        Format: `Analysis{num}`, where `num` increases across all analyses,
+        skipping over any such names which the user has given to other analyses."""
         name = f"Analysis{self.analysis_count}"
         self.analysis_count += 1
+        while name in self.user_names:
+            name = f"Analysis{self.analysis_count}"
+            self.analysis_count += 1
         return name
 
     def export_op(self, op: data.Op) -> vsp.OpInput:
@@ -271,6 +277,19 @@ class SimProtoExporter:
             )
         else:
             raise TypeError(f"Invalid Sweep value {sweep}")
+
+
+def user_analysis_names(attrs: Sequence[data.SimAttr]) -> List[str]:
+    """Collect the user-provided names of the analyses among `attrs`, including nested ones."""
+    names = []
+    for attr in attrs:
+        if not data.is_analysis(attr):
+            continue
+        if attr.name:
+            names.append(attr.name)
+        if isinstance(attr, (data.SweepAnalysis, data.MonteCarlo)):
+            names.extend(user_analysis_names(attr.inner))
+    return names
 
 
 def export_options(options: data.Options) -> vsp.SimOptions:
